@@ -17,7 +17,9 @@ def run(ctx):
         "reserve_exact, shrink_to_fit); MutBumpVecRev (mirrored): push, pop, pop_if, truncate, insert, remove, swap_remove, "
         "extend_from_slice_clone, resize_with, append; history level: every finite sequence of the 18 single-vector operations refines the "
         "list-level run (history_refines)",
-        "std-differential oracle only (not modelled): into_flattened, BumpVec::map, MutBumpVecRev::resize (proved for C06 only)",
+        "BumpVec::map (contents, order, documented capacity cap*size_of<T>/size_of<U> in place resp. len on the fallback path: vec_map_refines) "
+        "and into_flattened (Props/C16) are modelled, proved and replayed in the split profile",
+        "std-differential oracle only (not modelled): MutBumpVecRev::resize (proved for C06 only)",
         "capacity of MutBumpVec / MutBumpVecRev after growth is an observed input of the model (the arena decides); `cap >= promised` for them is an oracle check",
         "zero-sized element types (capacity usize::MAX, lengths) by oracle only",
     ]
